@@ -11,6 +11,8 @@ def c07(ctx, res):
     # every pair of small Maps as sibling list members (state carried between siblings)
     ctx.gen_replay(res, "vfp", "MC_C07.tla", "MC_C07_pairs.cfg" if ctx.quick else "MC_C07_pairs_thorough.cfg")
     ctx.gen_replay(res, "vfpw", "MC_Wide.tla", "MC_Wide_vfp.cfg")
+    # four levels deep: every path over the key chain with plain / indexed / wildcard steps (several look-ahead groups)
+    ctx.gen_replay(res, "vfpw", "MC_Deep.tla", "MC_Deep.cfg")
     res.assumptions += ["results of wildcard paths are compared as bags (Go map iteration order)",
                         "tagged value codec and token dictionary of the harness"]
 
@@ -21,6 +23,9 @@ def c08(ctx, res):
     ctx.gen_replay(res, "vfk", "MC_C08.tla", cfg)
     ctx.gen_replay(res, "vfk", "MC_C08.tla", "MC_C08_deep.cfg")   # deeper Maps (7 nodes), no conditions
     ctx.gen_replay(res, "vfkw", "MC_Wide.tla", "MC_Wide_vfk.cfg")
+    # sessions: sub-key STRINGS that are legal under both field separators, every history of SetFieldSeparator calls
+    # interleaved with key searches (the condition a string denotes is a function of the separator at the time of the call)
+    ctx.gen_replay(res, "mxj", "Mxj.tla", "Mxj_query.cfg" if ctx.quick else "Mxj_query_thorough.cfg", procs=8)
     res.assumptions += ["results of key searches are compared as bags (Go map iteration order)",
                         "sub-key strings are rendered from abstract conditions by the harness, under both field separators"]
 
@@ -29,6 +34,8 @@ def c09(ctx, res):
     path_trace(ctx, res)
     cfg = "MC_C09_quick.cfg" if ctx.quick else "MC_C09_thorough.cfg"
     ctx.gen_replay(res, "leaf", "MC_C09.tla", cfg)
+    # sessions: every history of LeafUseDotNotation (set / clear / toggle) and SetAttrPrefix calls interleaved with LeafNodes
+    ctx.gen_replay(res, "mxj", "Mxj.tla", "Mxj_leaf.cfg" if ctx.quick else "Mxj_leaf_thorough.cfg", procs=8)
     res.assumptions += ["leaf collections are compared as bags", "resolution clause applied to Maps without empty keys and without directly nested lists, [N] notation"]
 
 
@@ -36,7 +43,7 @@ def c10(ctx, res):
     path_trace(ctx, res)
     cfg = "MC_C10_quick.cfg" if ctx.quick else "MC_C10_thorough.cfg"
     ctx.gen_replay(res, "upd", "MC_C10.tla", cfg)
-    res.assumptions += ["the new value is fresh (occurs nowhere in the Map), so every replacement is visible to the frame theorem"]
+    res.assumptions += ["the frame theorem is stated for a fresh new value (occurs nowhere in the Map), so that every replacement is visible to it; the replay also uses a new value equal to values already present (count and post-state from the operational UpdateOp)"]
 
 
 def c11(ctx, res):
@@ -85,9 +92,9 @@ def c18(ctx, res):
     n = 12 if ctx.quick else 200
     ctx.gen_replay(res, "opts", "MC_C18.tla", "MC_C18_walk.cfg", workers=8,
                    extra=["-simulate", "num=%d" % n, "-depth", "31", "-seed", str(ctx.seed)])
-    # integrated specification: setter walks, then the codecs must behave as the codec specifications predict for the registers reached
+    # integrated specification: random sessions of 24 steps over ALL setters and operations (decode, cast decode, sequence decode, encode, leaf nodes, key search)
     ctx.gen_replay(res, "mxj", "Mxj.tla", "Mxj_walk.cfg", workers=8, procs=8,
-                   extra=["-simulate", "num=%d" % (6 if ctx.quick else 100), "-depth", "13", "-seed", str(ctx.seed)])
+                   extra=["-simulate", "num=%d" % (6 if ctx.quick else 150), "-depth", "25", "-seed", str(ctx.seed)])
     res.exhaustive = False
     res.assumptions += ["key prefixes are single punctuation characters, attribute prefixes contain no upper-case letters (property's quantifier)",
                         "behavioural probes: one fixed input set per operation class; the probe of a class is checked to be influenced by every register the specification lists for it"]
@@ -95,9 +102,12 @@ def c18(ctx, res):
 
 def c01(ctx, res):
     t = "quick" if ctx.quick else "thorough"
-    fams = ["names", "attrs", "attrs2", "texts"] + ([] if ctx.quick else ["texts2"])
+    fams = ["names", "attrs", "attrs2", "texts", "sibs"] + ([] if ctx.quick else ["texts2"])
     for fam in fams:
         ctx.gen_replay(res, "dec", "MC_C01.tla", "MC_C01_%s_%s.cfg" % (fam, t), procs=16)
+    # sessions of the integrated specification: every history of key-folding / prefix setters interleaved with decodes
+    # (the decoder is a function of the registers at the time of the call: nothing is carried from one decode to the next)
+    ctx.gen_replay(res, "mxj", "Mxj.tla", "Mxj_dec.cfg" if ctx.quick else "Mxj_dec_thorough.cfg", procs=8)
     res.assumptions += ["encoding/xml as tokenizer (namespace prefixes, entity and CDATA decoding)",
                         "domain notes of DESIGN C01: attribute names distinct after key folding, attribute prefix distinct from the key prefix, under keep-spaces inter-element white space contains no blanks, at most one non-blank text run per element",
                         "cast uses the default flags over the texts {7, 1, true}; the full cast chain is C14"]
@@ -105,7 +115,7 @@ def c01(ctx, res):
 
 def c02(ctx, res):
     t = "quick" if ctx.quick else "thorough"
-    for fam in ("names", "attrs", "vals"):
+    for fam in ("names", "attrs", "vals", "vals1"):
         ctx.gen_replay(res, "enc", "MC_C02.tla", "MC_C02_%s_%s.cfg" % (fam, t), procs=16)
     res.assumptions += ["encoding/xml as the definition of well-formedness and as tokenizer of the indented output",
                         "indented output compared with the compact one up to white space that the decoder trims (under keep-spaces: tabs/newlines only; indent string is a tab)",
@@ -114,6 +124,8 @@ def c02(ctx, res):
 
 def c03(ctx, res):
     ctx.gen_replay(res, "encv", "MC_C03.tla", "MC_C03_quick.cfg" if ctx.quick else "MC_C03_thorough.cfg", procs=8)
+    # the same value space under the other attribute / reserved-key prefixes ("@", "_")
+    ctx.gen_replay(res, "encv", "MC_C03.tla", "MC_C03_pfx_quick.cfg" if ctx.quick else "MC_C03_pfx_thorough.cfg", procs=8)
     res.assumptions += ["scalars are rendered by Go's %v; number formatting is trusted (tokens are canonical: 1.5, true)",
                         "domain: the text key and attribute keys hold non-nil scalars; a single top-level key is a valid element name"]
 
@@ -145,6 +157,9 @@ def c14(ctx, res):
     # the catalogue of leaf texts and what each denotes is regenerated from strconv on every run
     ctx.harness_cmd(["castcat", "CastCatalogue.tla"])
     ctx.gen_replay(res, "cast", "MC_C14.tla", "MC_C14.cfg", workers=4)
+    # sessions: every history of four cast-register setter calls (set / clear / toggle) and cast decodes of eight leaf texts:
+    # the cast of a text is a function of the registers at the time of the decode
+    ctx.gen_replay(res, "mxj", "Mxj.tla", "Mxj_cast.cfg", procs=8)
     res.assumptions += ["strconv (ParseInt/ParseUint/ParseFloat/ParseBool) is the ground truth for what a text denotes; the catalogue module is generated from it",
                         "documents in the C01 domain carry the catalogue text in element, attribute and text-key position; structure preservation under the cast flag is part of C01's replay (cast on/off)"]
 
@@ -158,6 +173,7 @@ def c16(ctx, res):
 def c17(ctx, res):
     # purity: every read-only method on every Map of the builder's space; Copy aliasing
     ctx.gen_replay(res, "pure", "MC_C17m.tla", "MC_C17m_quick.cfg" if ctx.quick else "MC_C17m_thorough.cfg")
+    ctx.gen_replay(res, "pure", "MC_C17m.tla", "MC_C17m_rich.cfg")     # fixed richer Maps: indexed paths into lists of records, sub-keys from the content
     # concurrency: all interleavings of the gate segments (TLC: shared never written, results sequential, termination),
     # enforced on real goroutines by the gate scheduler, under a -race build; plus free-running stress
     for cfg in ("MC_C17_p2.cfg", "MC_C17_p2b.cfg", "MC_C17_p3.cfg"):
@@ -191,6 +207,7 @@ def c19(ctx, res):
 
 def c20(ctx, res):
     ctx.gen_replay(res, "legacy", "MC_C20.tla", "MC_C20_quick.cfg" if ctx.quick else "MC_C20_thorough.cfg", procs=16)
+    ctx.gen_replay(res, "legacy", "MC_C20.tla", "MC_C20_deep.cfg", procs=4)     # chains 3 to 10 levels deep with siblings after every hit
     res.assumptions += ["j2x/x2j wrappers add no state: the specification lists each with its documented composition (MxjLegacy!Bindings); the harness checks the list against the exported identifiers parsed from the packages' sources and calls every bound function",
                         "the XML side is exercised with the Map's own XML encoding when it is a single readable document; JSON side: string scalars (identity round trip)",
                         "ToJson / ToJsonIndent / XmlBufferToJson use json.Marshal (HTML-safe escapes): compared as JSON values"]
